@@ -117,9 +117,9 @@ def sortedBy (key : Nat → α) : List Nat → Bool
   | [_] => true
   | a :: b :: r => decide (key a ≤ key b) && sortedBy key (b :: r)
 
-/-- every edge has `0 ≤ left < right ≤ sequence_length` -/
+/-- `0 ≤ sequence_length` and every edge has `0 ≤ left < right ≤ sequence_length` -/
 def geomOk (T : Tables α) : Bool :=
-  (List.range T.numEdges).all fun e =>
+  decide (0 ≤ T.seqLen) && (List.range T.numEdges).all fun e =>
     decide (0 ≤ T.l e) && decide (T.l e < T.r e) && decide (T.r e ≤ T.seqLen)
 
 /-- The decidable hypothesis of the sweep theorems: both indexes are permutations of the edge ids,
